@@ -27,6 +27,7 @@ RULE = ('(a) enumeration: 8 array kinds (literal, dynamic VLA, bool VLA, const s
         '(enumeration: by construction; random: the run executed a break/continue/stop handler/early return with ap above the stack base); '
         'distinct by hash of (source, args)')
 ASSUMPTIONS = common.ISA_ASSUMPTIONS[:3] + ['observation points are the labels the compiler always emits (loop_N, continue_N, break_N, end_call_N, try_handler_N)']
+REQUIRED_HIDC_FUNCTIONS = ['codegen/generator:CodeGen.reset_ap', 'codegen/generator:CodeGen.pop']     # M-COV: deciding code never entered => inconclusive
 MIN_NONTRIVIAL = {'quick': 300, 'thorough': 3000}
 MAX_STEPS = 600_000
 RELEASE_MSGS = ('no live object', 'released into the middle', 'ap=')
